@@ -1272,3 +1272,9 @@ fire('c02-holder-exponent-other-dimension', 'C02', M, 'Method.__init__',
 fire('c09-setbounds-keeps-caller-arrays', 'C09', EV, 'Evolvent.SetBounds',
      'self.lowerBoundOfFloatVariables = np.copy(lowerBoundOfFloatVariables)',
      'self.lowerBoundOfFloatVariables = np.asarray(lowerBoundOfFloatVariables)', 'R09.8')
+fire('c13-before-start-never-delivered', 'C13', P, 'Process.DoGlobalIteration',
+     '                    listener.BeforeMethodStart(self.method)\n', '                    pass\n', 'R13.3',
+     why='found by mutation sampling: the loop over the listeners is kept but the call is gone')
+fire('c13-method-stop-never-delivered', 'C13', P, 'Process.Solve',
+     '            listener.OnMethodStop(self.searchData, self.GetResults(), status)\n', '            pass\n', 'R13.3',
+     why='found by mutation sampling: the loop over the listeners is kept but the call is gone')
